@@ -385,7 +385,7 @@ func channel(r row) error {
 	if err := p.Inject("s2c", c2s); err != nil {
 		return err
 	}
-	time.Sleep(300 * time.Millisecond)
+	time.Sleep(800 * time.Millisecond)
 	if count(sm) != countS {
 		vfgo.Violation(c, class, "reflected-chunk-accepted-by-channel", "the server channel verified/decrypted a chunk it had sent itself (reflected response)")
 		return nil
